@@ -180,6 +180,16 @@ def add_cycle(rng, spec, kind=None):
     return spec
 
 
+def gen_case(rng, max_nodes=12, family=None, cyclic_prob=0.0, as_plan=False, **kw):
+    """One generated case: (spec, real object, integer edge list).  The real object is a networkx.MultiDiGraph over int
+    nodes (default) or (uberjob.Plan, {id: node object}) when as_plan=True."""
+    spec = random_dag(rng, max_nodes=max_nodes, family=family, **kw)
+    if cyclic_prob and rng.random() < cyclic_prob:
+        spec = add_cycle(rng, spec)
+    real = to_plan(spec) if as_plan else to_multidigraph(spec)
+    return spec, real, pairs_of(spec)
+
+
 def pairs_of(spec):
     """integer edge list (parallel edges appear as duplicates), insertion order: the model's [edges g]"""
     return [(s, d) for s, d, _ in spec["edges"]]
